@@ -16,7 +16,7 @@ pub fn property() -> Property {
     Property {
         id: "C18",
         level: "exploration",
-        rule: "Bounded-exhaustive matrix: every charset exported by attohttpc::charsets (40) x its labels (canonical name + WHATWG aliases; plus the 6 labels of the WHATWG `replacement` decoder) in lower/upper/mixed case x Content-Type form {`t/s; charset=l`, `t/s;charset=l`, absent, unknown label, no parameter} x default-charset setting {unset, session, request, session overridden by request, session reset to None by the request} x API {text, text_with(other), text_utf8, text_reader with caller buffers 1,2,3,4,5,16,8192} x body kind {valid text in that encoding, random bytes, truncated multi-byte tail, lone surrogates / ISO-2022-JP escape garbage}; plus EVERY single cut offset and the bytewise script of 14 fixed multi-byte bodies (exhaustive; splits every multi-byte sequence at every inner offset) and seeded random cases incl. BOM-prefixed bodies. Oracle: one-shot encoding_rs decode_without_bom_handling with the charset the statement selects; for BOM-prefixed bodies only 'streaming/segmented == unsegmented through the same API'; no API may return Err. Non-trivial: body non-empty; distinct = hash(head, body, segmentation, API, defaults).",
+        rule: "Bounded-exhaustive matrix: every charset exported by attohttpc::charsets (40) x its labels (canonical name + WHATWG aliases; plus the 6 labels of the WHATWG `replacement` decoder) in lower/upper/mixed case x Content-Type form {`t/s; charset=l`, `t/s;charset=l`, absent, unknown label, no parameter} x default-charset setting {unset, session, request, session overridden by request, session reset to None by the request} x API {text, text_with(other), text_utf8, text_reader with caller buffers 1,2,3,4,5,16,8192; a third of the reads through the reader half of Response::split()} x body kind {valid text in that encoding, random bytes, truncated multi-byte tail, lone surrogates / ISO-2022-JP escape garbage}; plus EVERY single cut offset and the bytewise script of 14 fixed multi-byte bodies (exhaustive; splits every multi-byte sequence at every inner offset) and seeded random cases incl. BOM-prefixed bodies. Oracle: one-shot encoding_rs decode_without_bom_handling with the charset the statement selects; for BOM-prefixed bodies only 'streaming/segmented == unsegmented through the same API'; no API may return Err. Non-trivial: body non-empty; distinct = hash(head, body, segmentation, API, defaults).",
         assumptions: &["quoted or second-position charset parameters are not generated", "encoding_rs is the decoding oracle (the statement defines decoding as lossy WHATWG decoding)"],
         min_nontrivial: |t| t.pick(5_000, 100_000),
         gens,
@@ -232,7 +232,37 @@ fn fetch(c: &Case) -> Result<attohttpc::Response, attohttpc::Error> {
     rb.send()
 }
 
+/// the same four entry points on the reader half of `Response::split()`
+fn run_api_split(resp: attohttpc::Response, api: &Api, with: Charset) -> Result<String, String> {
+    let (_status, _headers, reader) = resp.split();
+    match api {
+        Api::Text => reader.text().map_err(|e| format!("{e:?}")),
+        Api::TextWith => reader.text_with(with).map_err(|e| format!("{e:?}")),
+        Api::TextUtf8 => reader.text_utf8().map_err(|e| format!("{e:?}")),
+        Api::TextReader(n) => {
+            let mut r = reader.text_reader();
+            let mut buf = vec![0u8; *n];
+            let mut out = Vec::new();
+            loop {
+                match r.read(&mut buf) {
+                    Ok(0) => break,
+                    Ok(k) => out.extend_from_slice(&buf[..k]),
+                    Err(e) => return Err(format!("{:?}: {e}", e.kind())),
+                }
+                if out.len() > 50_000_000 {
+                    return Err("verif: text_reader does not end".into());
+                }
+            }
+            String::from_utf8(out).map_err(|e| format!("text_reader produced invalid UTF-8: {e}"))
+        }
+    }
+}
+
 fn run_api(resp: attohttpc::Response, api: &Api, with: Charset) -> Result<String, String> {
+    // a third of the reads go through Response::split()
+    if (resp.headers().len() + with.name().len()) % 3 == 0 {
+        return run_api_split(resp, api, with);
+    }
     match api {
         Api::Text => resp.text().map_err(|e| format!("{e:?}")),
         Api::TextWith => resp.text_with(with).map_err(|e| format!("{e:?}")),
